@@ -25,7 +25,11 @@ RULE = ("Exhaustive enumeration: every constant of symplyphysics.quantities (nam
     "1e-12, constants derived from them 1e-9, literals one unit of the last digit written in quantities/__init__.py "
     "(parsed from the source) or the docstring's stated relative uncertainty if larger; plus the seven identities at "
     "1e-9 with the dimension of each side; plus the __all__ scan. A case is non-trivial when the constant's dimension "
-    "involves >= 2 base dimensions; distinct non-trivial cases are counted per constant (views of one constant count once).")
+    "involves >= 2 base dimensions; distinct non-trivial cases are counted per constant (views of one constant count once). "
+    "Histories: Hypothesis-generated sequences (1-6 steps) of ordinary public-API uses of catalogue constants (Quantity(c), "
+    "Quantity(c, dimension=...), renamed copies, products, ratios, powers, conversions, approximate comparison, abs), each in "
+    "a forked process of its own, after which the whole table and the identities are judged again; non-trivial = two or "
+    "more steps or a copy-constructing step.")
 
 # If True, a public Quantity-typed attribute that is missing from __all__ is reported as a violation; otherwise it is
 # enumerated and judged like an exported constant and listed in the evidence (coverage.not_in___all__).
@@ -407,6 +411,138 @@ def judge_scan(tb: Table) -> tuple[list[Viol], list[str], list[str]]:
     return out, missing, unref
 
 
+
+# ------------------------------------------------------------------------------------------------
+# histories: the table must still hold after the constants have been USED through the public API
+
+
+USES = ("wrap", "wrap_dim", "wrap_named", "scaled", "ratio", "power", "convert_si", "convert_unit", "approx", "collect",
+    "abs", "float")
+
+
+def history_strategy() -> Any:
+    from hypothesis import strategies as st  # pylint: disable=import-outside-toplevel
+    step = st.tuples(st.integers(0, 200), st.sampled_from(USES), st.integers(0, 7)).map(list)
+    return st.lists(step, min_size=1, max_size=6)
+
+
+def _use(tb: Table, step: list[Any]) -> None:
+    """One ordinary use of a catalogue constant; whatever it returns or raises is irrelevant here."""
+    # pylint: disable=import-outside-toplevel,too-many-branches
+    import sympy
+    from sympy.physics import units
+    from symplyphysics import Quantity, convert_to, convert_to_float, convert_to_si, dimensionless
+    from symplyphysics.core.approx import approx_equal_quantities
+    from symplyphysics.core.dimensions.collect_quantity import collect_quantity_factor_and_dimension
+    i, kind, k = step
+    q = tb.get(tb.names[i % len(tb.names)])
+    other = tb.get(tb.names[(i * 7 + k + 1) % len(tb.names)])
+    dims_ = [dimensionless, units.length, units.energy, units.time, units.mass, units.velocity, units.charge, units.temperature]
+    try:
+        if kind == "wrap":
+            Quantity(q)
+        elif kind == "wrap_dim":
+            Quantity(q, dimension=dims_[k % len(dims_)])
+        elif kind == "wrap_named":
+            Quantity(q, display_symbol=f"x_{k}", display_latex=f"x_{{{k}}}")
+        elif kind == "scaled":
+            Quantity(q * (k + 2))
+        elif kind == "ratio":
+            Quantity(q / other)
+        elif kind == "power":
+            Quantity(q**(k % 3 + 2))
+        elif kind == "convert_si":
+            convert_to_si(q)
+        elif kind == "convert_unit":
+            convert_to(q, other)
+        elif kind == "approx":
+            approx_equal_quantities(q, Quantity(q * sympy.Rational(1001, 1000)))
+        elif kind == "collect":
+            collect_quantity_factor_and_dimension(q * other / (k + 1))
+        elif kind == "abs":
+            abs(q)
+        elif kind == "float":
+            convert_to_float(Quantity(q / q))
+    except Exception:  # pylint: disable=broad-except
+        pass
+
+
+def judge_history(history: list[list[Any]]) -> list[Viol]:
+    """Runs in a process of its own (a use that damages the table must not leak into other cases)."""
+    tb = Table()
+    before = [k for name in tb.names if name in REF for k, _ in judge_constant(tb, name)]
+    before += [k for idn in IDENTITIES for k, _ in judge_identity(tb, idn)]
+    for step in history:
+        _use(tb, step)
+    out: list[Viol] = []
+    for name in tb.names:
+        if name not in REF:
+            continue
+        for key, what in judge_constant(tb, name):
+            if key not in before:
+                out.append((f"after-use:{key}", f"after the uses {_show_history(tb, history)}: {what}"))
+    for idn in IDENTITIES:
+        for key, what in judge_identity(tb, idn):
+            if key not in before:
+                out.append((f"after-use:{key}", f"after the uses {_show_history(tb, history)}: {what}"))
+    return out
+
+
+def _show_history(tb: Table, history: list[list[Any]]) -> str:
+    return "[" + ", ".join(f"{kind}({tb.names[i % len(tb.names)]}, {k})" for i, kind, k in history) + "]"
+
+
+def _history_task(history: list[list[Any]]) -> list[Viol]:
+    return judge_history(history)
+
+
+def run_histories(ctx: Ctx) -> None:
+    from ..hyp import hyp_run  # pylint: disable=import-outside-toplevel
+    from ..pool import run_tasks  # pylint: disable=import-outside-toplevel
+    from ..shrink import shrink  # pylint: disable=import-outside-toplevel
+    histories: list[Any] = []
+    hyp_run(history_strategy(), histories.append, ctx.pick(64, 1500), ctx.seed * 1000 + 77)
+    # every kind of use at least once on an exact and on a literal constant, whatever was drawn
+    tb = Table()
+    for j, kind in enumerate(USES):
+        for k in range(ctx.pick(2, 8)):
+            histories.append([[tb.names.index("speed_of_light") if k % 2 == 0 else (j * 5 + k) % len(tb.names), kind, k]])
+    results = run_tasks(_history_task, histories, timeout=300, fresh=True)
+    found: dict[str, Any] = {}
+    for hist, (status, val) in zip(histories, results):
+        if status == "timeout":
+            ctx.inconclusive += 1
+            continue
+        if status != "ok":
+            raise RuntimeError(f"{PID} history failed: {status}: {val}")
+        kinds = sorted({kind for _i, kind, _k in hist})
+        ctx.case({"h": hist}, nontrivial=len(hist) >= 2 or hist[0][1] in ("wrap", "wrap_dim", "wrap_named"),
+            labels=["history"] + [f"use:{k}" for k in kinds])
+        for key, what in val:
+            if key not in found:
+                found[key] = (hist, what)
+
+    def fails(key: str, hist: list[Any]) -> bool:
+        if not hist:
+            return False
+        st_, val = run_tasks(_history_task, [hist], timeout=300, fresh=True)[0]
+        return st_ == "ok" and any(k == key for k, _ in val)
+
+    def candidates(hist: list[Any]) -> Any:
+        for j in range(len(hist)):
+            yield hist[:j] + hist[j + 1:]
+        for j, (i, kind, k) in enumerate(hist):
+            if k:
+                yield hist[:j] + [[i, kind, 0]] + hist[j + 1:]
+
+    for key, (hist, what) in found.items():
+        small = shrink(hist, candidates, lambda h, key=key: fails(key, h), budget_s=ctx.pick(30, 120))
+        st_, val = run_tasks(_history_task, [small], timeout=300, fresh=True)[0]
+        msg = next((w for k, w in (val if st_ == "ok" else []) if k == key), what)
+        ctx.violation(key, msg, {"kind": "history", "history": small})
+    ctx.samples += [{"kind": "history", "history": h} for h in histories[:2]]
+
+
 def selfcheck() -> None:
     """The reference table must satisfy the property's identities itself (harness error otherwise)."""
     mp = _mp()
@@ -427,7 +563,8 @@ def run(ctx: Ctx) -> None:
     selfcheck()
     mp = _mp()
     tb = Table()
-    ctx.exhaustive = True
+    ctx.exhaustive = False  # the table, its views and the identities are enumerated exhaustively; the use-histories are generated
+    ctx.notes["table_views_identities_exhaustive"] = True
     viols, missing, unref = judge_scan(tb)
     ctx.case({"kind": "scan"}, nontrivial=False, labels=["scan"])
     for key, what in viols:
@@ -488,6 +625,7 @@ def run(ctx: Ctx) -> None:
             ctx.violation(key, what, case)
     ctx.notes["views"] = nviews
     ctx.samples = const_samples + view_samples + [{"kind": "identity", "id": i} for i in list(IDENTITIES)[:3]]
+    run_histories(ctx)
     ctx.assumptions += [
         "reference values typed from CODATA 2018, CODATA 2022 (either edition accepted for measured constants), IAU 2015 "
         "Resolutions B2/B3, Planck 2018 / SH0ES for H_0; sources are listed per row in vp/checks/c20.py",
@@ -512,4 +650,10 @@ def replay(case: dict[str, Any]) -> list[Viol]:
         return judge_identity(tb, case["id"])
     if kind == "scan":
         return judge_scan(tb)[0]
+    if kind == "history":
+        from ..pool import run_tasks  # pylint: disable=import-outside-toplevel
+        st_, val = run_tasks(_history_task, [case["history"]], timeout=300, fresh=True)[0]
+        if st_ != "ok":
+            raise RuntimeError(f"history replay: {st_}: {val}")
+        return list(val)
     raise ValueError(f"unknown case kind {kind}")
